@@ -343,6 +343,7 @@ func ledgerScenario(c *Ctx, mode string) {
 		remaining -= nb
 		c.Count("epoch")
 	}
+	evmValueCases(c, mode) // c05_evmvalue.go: generated frame-tree programs vs LemoModel.EvmValue (own random stream)
 }
 
 func ledgerEpoch(c *Ctx, mode string, nBlocks int, epoch int) {
@@ -1653,6 +1654,8 @@ func ledgerEpoch(c *Ctx, mode string, nBlocks int, epoch int) {
 				l.discardTrace(b, parent, t, byHash, blockGas, k)
 			}
 			l.captureParent(b, miner)
+			l.evmValueBlock(b, miner) // c05_evmvalue.go: contract blocks vs LemoModel.EvmValue (re-executed by Process on the parent state)
+			l.guardCaptureIf(modelled, b, byHash) // c05_guard.go: the real engine's raw change logs of the block (C11 `guard` op)
 			if e := n.Insert(CloneBlock(b)); e != nil {
 				if os.Getenv("HX_DEBUG") != "" {
 					log.Setup(log.LevelDebug, false, true)
@@ -1832,6 +1835,7 @@ func ledgerEpoch(c *Ctx, mode string, nBlocks int, epoch int) {
 			if isReward {
 				c.Op(l.rewardLine(rf, refunds), "ok")
 			}
+			l.guardOp(res, parent, cand, refunds, isReward) // c05_guard.go: decision op `guard` + oracle c11/tally-mismatch/guarded-block
 			c.Op("end", res)
 		}
 		if strings.HasPrefix(res, "panic") || strings.HasPrefix(res, "builderr") || res == "rejected" {
